@@ -177,13 +177,24 @@ pub fn run(tier: Tier) -> i32 {
             systems.push(hs);
         }
     }
+    {
+        // the node's initial vote in slot 1 was skip (its timeouts fired, the skip vote is in its pool);
+        // the block and the others' votes arrive afterwards
+        use crate::engine::Sys;
+        let mut ts = NodeSys::new("slot1-fallbacks-after-own-timeout", x3.clone(), 0, alpha_fallbacks(), 0);
+        let n = ts.num_actions() as u16;
+        let timer = (0..n).find(|a| ts.describe(*a).contains("next timeout of window 0")).expect("timer action");
+        let loop0 = (0..n).find(|a| ts.describe(*a).contains("deliver own broadcast #0 ")).expect("loop-back action");
+        ts.prefix = vec![timer, timer, timer, loop0];
+        systems.push(ts);
+    }
     if tier == Tier::Thorough {
         systems.push(NodeSys::new("slot1-two-blocks-all-inputs-lag2", x3.clone(), 0, alpha_slot1(), 2));
         systems.push(NodeSys::new("window-boundary-3-4-5-lag1", x3.clone(), 0, alpha_boundary(), 1));
     }
     let depth = tier.pick(6, 9);
     // quick: depth bounds chosen so that every system completes its bound (deterministic coverage)
-    let quick_depth = |name: &str| if name.contains("no-lag") { 7 } else if name.contains("fallbacks") { 6 } else { 4 };
+    let quick_depth = |name: &str| if name.contains("no-lag") { 7 } else if name.contains("after-own-timeout") { 5 } else if name.contains("fallbacks") { 6 } else { 4 };
     let per_secs = tier.pick(14, 140);
     let mut total = BfsStats::default();
     let mut per = Vec::new();
